@@ -397,6 +397,30 @@ fn query_date_overflow() -> Option<String> {
     }
 }
 
+/// C15: ECDSA / secp256r1 signatures come in pairs (r, s) / (r, n - s) that p256's `verify` both accepts; a block whose
+/// signature nothing else covers (the last block of an unsealed token) can be presented under a second revocation identifier
+fn p256_signature_twin() -> Option<String> {
+    use biscuit_auth::builder::Algorithm;
+    use biscuit_auth::format::schema;
+    use prost::Message;
+    let root = KeyPair::new_with_algorithm(Algorithm::Secp256r1);
+    let t = Biscuit::builder().fact("user(\"alice\")").unwrap().build(&root).unwrap();
+    let bytes = t.to_vec().unwrap();
+    let mut proto = schema::Biscuit::decode(&bytes[..]).ok()?;
+    let sig = p256::ecdsa::Signature::from_der(&proto.authority.signature).ok()?;
+    let (r, s) = sig.split_scalars();
+    let twin = p256::ecdsa::Signature::from_scalars(*r, -*s).ok()?;
+    proto.authority.signature = twin.to_der().as_bytes().to_vec();
+    let variant = proto.encode_to_vec();
+    if variant == bytes { return None; }
+    let t2 = match Biscuit::from(&variant, root.public()) { Ok(t) => t, Err(_) => return None };
+    let (a, b) = (t.revocation_identifiers(), t2.revocation_identifiers());
+    if t.print_block_source(0).ok()? == t2.print_block_source(0).ok()? && a != b {
+        let hex = |v: &Vec<u8>| v.iter().map(|x| format!("{:02x}", x)).collect::<String>();
+        Some(format!("token with a secp256r1 root key, authority signature (r, s) replaced by (r, n - s): Biscuit::from accepts the variant, same block, revocation identifier {}.. instead of {}..", &hex(&b[0])[..24], &hex(&a[0])[..24]))
+    } else { None }
+}
+
 /// run `case` in a child process; report how it ended (a panic inside an extern "C" function aborts the process)
 fn in_child(case: &str) -> Result<String, String> {
     let exe = std::env::current_exe().unwrap();
@@ -546,6 +570,7 @@ fn main() {
         "datalog_source_short_key" => datalog_source_short_key(),
         "dump_malformed_expression" => dump_malformed_expression(),
         "facts_over_budget_at_start" => facts_over_budget_at_start(),
+        "p256_signature_twin" => p256_signature_twin(),
         _ => { eprintln!("unknown case {}", case); std::process::exit(2) }
     };
     match w {
